@@ -409,7 +409,17 @@ def run_events(events, acc):
                     safe_only = False
                 try:
                     special = {"NONLIST": {"name": 1}.keys(), "EMPTYDICT": {}, "EMPTYRANGE": range(0), "EMPTYBYTES": b""}
-                    d = pr.as_dict(attrs=special.get(attrs, attrs) if isinstance(attrs, str) else attrs, ad_value=adv)
+                    arg = special.get(attrs, attrs) if isinstance(attrs, str) else attrs
+                    if isinstance(attrs, list):
+                        # the documented collection types; whichever it is, it stays the caller's (a program passes the same
+                        # set again and again)
+                        arg = (list, tuple, set, frozenset)[int(harness.chash([attrs, len(events)])[-1], 16) % 4](attrs)
+                        arg_before = copy.copy(arg)
+                    d = pr.as_dict(attrs=arg, ad_value=adv)
+                    if isinstance(attrs, list):
+                        acc.count("as_dict_attr_collections_compared_after_the_call")
+                        if arg != arg_before or type(arg) is not type(arg_before):
+                            viols.append(("as_dict_modified_the_callers_attrs", ctx + f" attrs={arg_before!r} -> {arg!r}"))
                     res = ("ok", d)
                 except ps.NoSuchProcess:
                     res = ("NoSuchProcess", None)
@@ -767,8 +777,62 @@ def run_threads_case(case, acc):
     acc.case(dict(kind="threads", **case), interleaved > 0, viols)
 
 
+def run_piter_cases(acc):
+    """process_iter(attrs=...) hands out Process objects while its generator stays suspended (the caller keeps the iterator, or is
+    simply in the body of its for loop): for the caller no oneshot() block is open, so what it asks the object next is fresh -
+    and asking from another thread does not hang."""
+    import threading
+    env = setup()
+    ps = env["ps"]
+    for attrs in (["cpu_times"], ["name", "status"], ["uids", "num_threads"], ["memory_maps"], []):
+        for m in ("cpu_times", "num_threads", "uids", "memory_maps", "num_ctx_switches"):
+            case = dict(kind="piter", attrs=attrs, then=m)
+            viols = []
+            w = Stamped()
+            with w.vk:
+                ps.virtual_memory()
+                ps.boot_time()
+                ps.process_iter.cache_clear()
+                it = ps.process_iter(attrs=attrs)
+                obj = None
+                try:
+                    for p in it:
+                        if p.pid == 50:
+                            obj = p
+                            break           # the generator stays suspended right after the yield
+                except Exception as e:  # noqa: BLE001
+                    viols.append((f"process_iter_attrs_exception:{type(e).__name__}", repr(e)))
+                if obj is not None:
+                    c0 = w.counter
+                    acc.count("calls_on_an_object_yielded_by_a_suspended_process_iter")
+                    box = {}
+
+                    def ask():
+                        try:
+                            box["v"] = getattr(obj, m)()
+                        except BaseException as e:  # noqa: BLE001
+                            box["exc"] = e
+                    th = threading.Thread(target=ask, daemon=True)       # another thread than the one driving the generator
+                    th.start()
+                    th.join(60)
+                    if th.is_alive():
+                        acc.inconclusive = f"piter {attrs} {m}: the call from another thread did not return within 60 s"
+                        acc.case(case, True, viols)
+                        return
+                    if "exc" in box:
+                        viols.append((f"call_exception:{m}:after_process_iter_attrs", repr(box["exc"])))
+                    else:
+                        v = version_of(m, box["v"])
+                        if v is not None and not v > c0:
+                            viols.append((f"stale_value_outside_block:{m}:object_yielded_by_process_iter_attrs",
+                                          f"attrs={attrs}: got v{v}, the counter before the call was v{c0}"))
+                it.close()
+                ps.process_iter.cache_clear()
+            acc.case(case, True, viols)
+
+
 def plan(tier, seed):
-    shards = []
+    shards = [dict(kind="piter")]
     nev = 6000 if tier == "quick" else 300000
     nparts = 8 if tier == "quick" else 32
     for s, c in harness.split_range(nev, nparts):
@@ -797,6 +861,8 @@ def run_shard(shard):
     if k == "events":
         for i in range(shard["start"], shard["start"] + shard["count"]):
             run_events(gen_events(harness.rng_for(shard["seed"], "c16", i)), acc)
+    elif k == "piter":
+        run_piter_cases(acc)
     elif k == "sched_exh":
         total = baseline_steps(shard["scn"])
         acc.extra.setdefault("yield_points_per_scenario", {})[shard["scn"]] = total
@@ -818,6 +884,8 @@ def run_shard(shard):
         for case in shard["cases"]:
             if case.get("kind") == "threads":
                 run_threads_case({k_: v for k_, v in case.items() if k_ != "kind"}, acc)
+            elif case.get("kind") == "piter":
+                run_piter_cases(acc)
             elif "events" in case:
                 run_events(case["events"], acc)
             else:
